@@ -158,8 +158,10 @@ var (
 	c16eDCCert *dnscrypt.Cert
 )
 
-func c16eCert(names []string) *tls.Certificate {
-	k := strings.Join(names, "\x00")
+// c16eCert builds (once per shape) a self-signed certificate with the given DNS
+// SANs, common name and, optionally, IP SANs.
+func c16eCert(names []string, cn string, withIP bool) *tls.Certificate {
+	k := strings.Join(names, "\x00") + "\x01" + cn + "\x01" + vutil.B(withIP)
 	if c, ok := c16eCerts[k]; ok {
 		return c
 	}
@@ -169,12 +171,15 @@ func c16eCert(names []string) *tls.Certificate {
 	}
 	tmpl := &x509.Certificate{
 		SerialNumber: big.NewInt(int64(len(c16eCerts) + 1)),
-		Subject:      pkix.Name{CommonName: "c16.verif"},
+		Subject:      pkix.Name{CommonName: cn, Organization: []string{"c16.verif"}},
 		NotBefore:    time.Now().Add(-time.Hour),
 		NotAfter:     time.Now().Add(24 * time.Hour),
 		KeyUsage:     x509.KeyUsageDigitalSignature,
 		ExtKeyUsage:  []x509.ExtKeyUsage{x509.ExtKeyUsageServerAuth},
 		DNSNames:     names,
+	}
+	if withIP {
+		tmpl.IPAddresses = []net.IP{{127, 0, 0, 1}, net.IPv6loopback}
 	}
 	der, err := x509.CreateCertificate(crand.Reader, tmpl, tmpl, &priv.PublicKey, priv)
 	if err != nil {
@@ -251,7 +256,7 @@ func (e *c16eEnv) stop() {
 }
 
 // c16eReset starts a fresh server for a block.
-func c16eReset(srvName string, strict bool, certNames []string, plainDoH bool) {
+func c16eReset(srvName string, strict bool, certNames []string, certCN string, certIP, plainDoH bool) {
 	if c16e != nil {
 		c16e.stop()
 	}
@@ -307,7 +312,7 @@ func c16eReset(srvName string, strict bool, certNames []string, plainDoH bool) {
 		UDPListenAddrs: []*net.UDPAddr{{IP: lo}},
 		TCPListenAddrs: []*net.TCPAddr{{IP: lo}},
 		TLSConf: &TLSConfig{
-			Cert:            c16eCert(certNames),
+			Cert:            c16eCert(certNames, certCN, certIP),
 			TLSListenAddrs:  []*net.TCPAddr{{IP: lo}},
 			QUICListenAddrs: []*net.UDPAddr{{IP: lo}},
 			ServerName:      srvName,
@@ -353,7 +358,7 @@ func c16eReset(srvName string, strict bool, certNames []string, plainDoH bool) {
 	e.httpsLn = tcpLn
 	e.httpsSrv = &http.Server{
 		Handler:   mux,
-		TLSConfig: &tls.Config{Certificates: []tls.Certificate{*c16eCert(certNames)}, MinVersion: tls.VersionTLS12},
+		TLSConfig: &tls.Config{Certificates: []tls.Certificate{*c16eCert(certNames, certCN, certIP)}, MinVersion: tls.VersionTLS12},
 		ErrorLog:  slog.NewLogLogger(slog.DiscardHandler, slog.LevelError),
 	}
 	go func() { _ = e.httpsSrv.ServeTLS(tcpLn, "", "") }()
@@ -907,9 +912,11 @@ func c16eRun(f []string) []string {
 		for i := range names {
 			names[i] = vutil.Unhex(f[4+i])
 		}
-		// f[5+n] is urlStrictColons: a fact about this binary (GODEBUG), an
-		// input of the model only
-		c16eReset(vutil.Unhex(f[1]), vutil.UnB(f[2]), names, vutil.UnB(f[4+n]))
+		// srvName strict nDNS dnsSAN… certCN certHasIP plainDoH urlStrictColons;
+		// the last one is a fact about this binary (GODEBUG), an input of the
+		// model only.  The certificate reaches the server only through
+		// ServerConfig.TLSConf.Cert and the real Prepare/prepareTLS.
+		c16eReset(vutil.Unhex(f[1]), vutil.UnB(f[2]), names, vutil.Unhex(f[4+n]), vutil.UnB(f[5+n]), vutil.UnB(f[6+n]))
 
 		return []string{"reset"}
 	case "C16E.reconf":
@@ -1201,24 +1208,41 @@ func c16eGen(r *rand.Rand, emit vutil.Emit) {
 	for b := 0; b < n; b++ {
 		srv := vutil.Pick(r, []string{"example.org", "example.org", "dns.example.org", "dns.example.org", "Example.Org", "org", ""})
 		strict := r.IntN(2) == 0
+		// certificate dimension: DNS SAN = server name (+ wildcard), server
+		// name only, wildcard of the parent, another name, CN only, IP SANs
+		// only, no names at all
+		base := srv
+		if base == "" {
+			base = "example.org"
+		}
 		var names []string
-		switch k := r.IntN(10); {
-		case srv == "":
-			names = []string{"example.org", "*.example.org"}
-		case k < 6:
-			names = []string{srv, "*." + srv}
-		case k == 6:
-			names = []string{srv}
-		case k == 7 || k == 8:
+		cn, certIP := "", r.IntN(4) == 0
+		switch k := r.IntN(14); {
+		case k < 5:
+			names = []string{base, "*." + base}
+		case k == 5:
+			names = []string{base}
+		case k == 6 || k == 7:
 			names = []string{"*.example.org", "example.org"}
-		default:
+		case k == 8:
 			names = []string{"other.test", "*.other.test"}
+		case k == 9:
+			cn = base
+		case k == 10:
+			cn = "*." + base
+		case k == 11 || k == 12:
+			certIP = true // IP SANs only
+		default:
+			certIP = false // no names at all
+		}
+		if len(names) > 0 && r.IntN(3) == 0 {
+			cn = vutil.Pick(r, []string{base, "c16.verif", "*." + base})
 		}
 		f := []string{"C16E.reset", vutil.Hex(srv), vutil.B(strict), vutil.Itoa(len(names))}
 		for _, nm := range names {
 			f = append(f, vutil.Hex(nm))
 		}
-		emit(append(f, vutil.B(r.IntN(2) == 0), vutil.B(c16eStrictColons()))...)
+		emit(append(f, vutil.Hex(cn), vutil.B(certIP), vutil.B(r.IntN(2) == 0), vutil.B(c16eStrictColons()))...)
 
 		steps := 15 + r.IntN(35)
 		reconfAt := -1
